@@ -116,6 +116,46 @@ class Ctx:
         self.notes.append(s)
 
 
+CLIPPY_LINTS = ["unwrap_used", "expect_used", "indexing_slicing", "panic", "todo", "unreachable", "string_slice", "arithmetic_side_effects", "unimplemented"]
+
+
+def clippy_xref(repo, ctx):
+    """every construct clippy's panic-related restriction lints flag in the library must be at a line the inventory lists"""
+    cmd = ["cargo", "+nightly", "clippy", "--offline", "--lib", "--message-format=json", "--", "-A", "clippy::all"]
+    for l in CLIPPY_LINTS:
+        cmd += ["-W", "clippy::" + l]
+    env = dict(os.environ)
+    env["CARGO_TARGET_DIR"] = os.path.join(VERIF, ".cache", "target-clippy")
+    env["CARGO_NET_OFFLINE"] = "true"
+    r = subprocess.run(cmd, cwd=repo, env=env, stdout=subprocess.PIPE, stderr=subprocess.PIPE, text=True)
+    sites = {}
+    for line in r.stdout.splitlines():
+        try:
+            m = json.loads(line)
+        except ValueError:
+            continue
+        if m.get("reason") != "compiler-message":
+            continue
+        msg = m["message"]
+        code = (msg.get("code") or {}).get("code") or ""
+        if not code.startswith("clippy::"):
+            continue
+        for sp in msg["spans"]:
+            if sp["is_primary"]:
+                sites[(sp["file_name"], sp["line_start"], sp["line_end"])] = code
+    inv = set()
+    for rec in ctx.records:
+        if rec.rule in ("PANIC", "PANIC-INTERNAL") and rec.span:
+            parts = rec.span.split(":")
+            if len(parts) >= 2 and parts[1].isdigit():
+                inv.add((parts[0], int(parts[1])))
+    missing = []
+    for (f, a, b), code in sorted(sites.items()):
+        if not any((f, ln) in inv for ln in range(a - 1, b + 2)):
+            missing.append({"at": "%s:%d" % (f, a), "lint": code})
+    return {"clippy_sites": len(sites), "inventory_lines": len(inv), "missing": missing, "clippy_exit": r.returncode}
+
+
 def load_known():
     p = os.path.join(VERIF, "known_findings.json")
     if not os.path.exists(p):
@@ -212,7 +252,7 @@ def main():
     if extra is not None:
         for r in extra.records:
             if r.verdict == "violation":
-                r.item = r.item + " [no-default-features]"
+                r.detail = "[--no-default-features build] " + r.detail
                 records.append(r)
 
     known = {k["key"]: k for k in load_known() if k.get("property") == prop and k.get("status") == "known"}
@@ -251,6 +291,41 @@ def main():
             print("  %s" % r.detail)
         rc = 1
 
+    selfcheck = None
+    xref = None
+    if tier == "thorough" and not args.facts:
+        # (a) self-validation corpus of this property's rules (seeded breaks must be caught, benign variants stay silent)
+        try:
+            import mutants
+            if mutants.capture_argv(args.repo):
+                try:
+                    ms = mutants.mutants_for(prop)
+                except ModuleNotFoundError:
+                    ms = []
+                base = set(r.key for r in uviol)
+                from concurrent.futures import ThreadPoolExecutor
+                with ThreadPoolExecutor(max_workers=16) as ex:
+                    rs = list(ex.map(lambda m: mutants.evaluate(prop, m, args.repo, base), ms))
+                selfcheck = {"variants": len(rs), "caught": sum(1 for r in rs if r["status"] == "caught"), "silent": sum(1 for r in rs if r["status"].startswith("silent")),
+                             "skipped": [r["id"] for r in rs if r["status"] == "skipped"],
+                             "problems": [{"id": r["id"], "status": r["status"], "detail": r.get("detail", "")[:300]} for r in rs if r["status"] in ("MISSED", "FALSE-ALARM", "error")],
+                             "results": [{"id": r["id"], "kind": r["kind"], "status": r["status"], "fired": r.get("new_violations", [])[:4]} for r in rs]}
+                for pr in selfcheck["problems"]:
+                    print("SELFCHECK-PROBLEM property=%s variant=%s %s %s" % (prop, pr["id"], pr["status"], pr["detail"][:160]))
+        except Exception:
+            selfcheck = {"error": traceback.format_exc()[-400:]}
+        # (b) C17: cross-reference the panic inventory with clippy's restriction lints (completeness of the inventory)
+        if prop == "C17":
+            xref = clippy_xref(args.repo, ctx)
+            for m in xref.get("missing", []):
+                p_ = os.path.join(vdir, "%s-xref-%d.json" % (prop, len(new)))
+                os.makedirs(vdir, exist_ok=True)
+                with open(p_, "w") as f:
+                    json.dump({"property": prop, "rule": "INVENTORY-XREF", "site": m}, f)
+                print("VIOLATION property=%s replay=%s" % (prop, p_))
+                print("  rule=INVENTORY-XREF clippy reports a panic-capable construct at %s (%s) that the inventory does not list: failing closed" % (m["at"], m["lint"]))
+                rc = 1
+
     wall = time.time() - t0
     if not args.no_evidence:
         oks = [r for r in records if r.verdict == "ok"]
@@ -278,6 +353,8 @@ def main():
                 "known_findings_reported": [r.key for r in kn],
                 "notes": ctx.notes,
                 "positive_controls": [{"control": c, "fired": f} for c, f in ctl_ran],
+                "selfcheck": selfcheck,
+                "clippy_cross_reference": xref,
                 "checker_cmd": "python3 sa/check.py %s --tier %s" % (prop, tier),
                 "trusted_base": ["rustc MIR construction and trait resolution (nightly, -Zmir-opt-level=0)",
                                  "semantics of std/glob/indexmap/serde/RustCrypto calls",
